@@ -1,7 +1,7 @@
 """C20 - on-disk message log stays well-formed and gap-free across rotation / restart / crash.
 
 Real DefaultHandler on a scratch directory (created per case under the system temp dir and removed
-afterwards), virtual strictly increasing clock.  Histories over every handler callback with
+afterwards), virtual clock (strictly increasing, or coarse: several readings per tick).  Histories over every handler callback with
 JSON-safe payloads, small rotation thresholds, restarts and crashes in the middle of a write
 (the newest file truncated to size_before_last_write + k, then restart).  Final audit of all files.
 """
@@ -27,7 +27,7 @@ RULE = ('histories over all DefaultHandler callbacks (write_keepalive on/off) wi
         'offset followed by restart, then further events and an audit of all files. Non-trivial = >= 1 rotation and >= 1 '
         'restart, or a torn write; distinct by history. Peer address spelled as IPv4, lower-case and upper-case IPv6; update '
         'payloads synthetic (also 10-20 KB records of 500 / 1000 prefixes) and as decoded by yabgp from one well-formed UPDATE '
-        'per address family.')
+        'per address family. Rotation thresholds from 0 (every record rotates) up; clock strictly increasing or coarser than the event rate.')
 ASSUMPTIONS = ['update payloads are synthetic JSON-safe ones plus what yabgp itself decodes from one well-formed UPDATE per address '
                'family (octet-string results only where stdlib json and simplejson both refuse them)',
                'torn-write model: a prefix of the bytes of the last append survives (append-only file, no reordering)',
@@ -42,11 +42,18 @@ PEERS = ['10.0.0.2', '2001:db8::7', '2001:DB8::7', 'FE80::A']
 
 
 class Clock(object):
-    def __init__(self):
+    """strict: every reading is later than the one before; coarse: a clock with a tick longer than the time between
+    two events (several consecutive readings return the same value)"""
+
+    def __init__(self, coarse=False):
         self.t = 1600000000.0
+        self.coarse = coarse
+        self.n = 0
 
     def time(self):
-        self.t += 0.25
+        self.n += 1
+        if not self.coarse or self.n % 7 == 0:
+            self.t += 0.25
         return self.t
 
     def __getattr__(self, n):
@@ -156,10 +163,10 @@ EVENTS = ['update_received', 'on_update_error', 'keepalive_received', 'open_rece
 
 
 class Run(object):
-    def __init__(self, max_size, write_keepalive, peer=PEER):
+    def __init__(self, max_size, write_keepalive, peer=PEER, coarse_clock=False):
         self.addr = peer
         self.dir = tempfile.mkdtemp(prefix='verif-c20-')
-        self.clock = Clock()
+        self.clock = Clock(coarse_clock)
         dh.time = self.clock
         CONF.set_override('write_disk', True, group='message')
         CONF.set_override('write_dir', self.dir, group='message')
@@ -206,7 +213,8 @@ class Run(object):
         """-> (bytes appended to the newest file before rotation, file name) or None if nothing is logged"""
         h, p = self.h, self.peer
         nfiles = len(self.files())
-        cur = self.h.peer_files[self.addr.lower()][1].name
+        fh0 = self.h.peer_files[self.addr.lower()][1]
+        cur = fh0.name
         before = os.path.getsize(cur)
         t = self.clock.time()
         try:
@@ -219,7 +227,7 @@ class Run(object):
         logged = not (kind == 'on_established' or (kind == 'keepalive_received' and not self.write_keepalive))
         if logged:
             self.expected += 1
-        if len(self.files()) > nfiles:
+        if len(self.files()) > nfiles or self.h.peer_files[self.addr.lower()][1] is not fh0:
             self.rotations += 1
         after = os.path.getsize(cur)
         return (cur, before, after) if logged else None
@@ -327,7 +335,7 @@ class Run(object):
 
 
 def run_case(case):
-    run = Run(case['max_size'], case['write_keepalive'], PEERS[case.get('peer', 0) % len(PEERS)])
+    run = Run(case['max_size'], case['write_keepalive'], PEERS[case.get('peer', 0) % len(PEERS)], case.get('clock') == 'coarse')
     try:
         for op in case['ops']:
             if run.h is None or run.dead:
@@ -356,7 +364,8 @@ ev_op = st.tuples(st.just('ev'), st.sampled_from([0, 0, 0, 1, 2, 3, 4, 5, 6, 7, 
 op = st.one_of(ev_op, ev_op, ev_op, st.just(['restart']),
                st.tuples(st.just('torn'), st.sampled_from([0, 0, 1, 3, 6, 7]), st.one_of(st.integers(0, 7), st.sampled_from([200, 201])),
                          st.one_of(st.integers(0, 400), st.integers(0, 30000))).map(list))
-case_strategy = st.fixed_dictionaries({'max_size': st.sampled_from([150, 400, 1000, 10 ** 9]), 'write_keepalive': st.booleans(),
+case_strategy = st.fixed_dictionaries({'max_size': st.sampled_from([0, 1, 60, 150, 150, 400, 1000, 10 ** 9]), 'write_keepalive': st.booleans(),
+                                       'clock': st.sampled_from(['strict', 'strict', 'coarse']),
                                        'peer': st.sampled_from([0, 0, 1, 2, 3]),
                                        'ops': st.lists(op, min_size=1, max_size=30)})
 
@@ -383,9 +392,9 @@ def run_shard(spec, seed, col, tier):
         alpha = [['ev', 0, 0], ['ev', 0, 2], ['ev', 7, 4], ['restart'], ['torn', 0, 0, 5], ['torn', 0, 2, 150], ['torn', 7, 4, 1],
                  ['ev', 0, 201], ['torn', 0, 201, 9000], ['ev', 0, 300], ['ev', 0, 303]]
         seqs = list(itertools.product(range(len(alpha)), repeat=spec['len']))[spec['part']::spec['parts']]
-        for ms in (150, 10 ** 9):
+        for ms, clock in ((150, 'strict'), (10 ** 9, 'strict'), (0, 'coarse'), (150, 'coarse')):
             for s in seqs:
-                case = {'max_size': ms, 'write_keepalive': False, 'ops': [alpha[i] for i in s] + [['ev', 0, 1]]}
+                case = {'max_size': ms, 'write_keepalive': False, 'clock': clock, 'ops': [alpha[i] for i in s] + [['ev', 0, 1]]}
                 res, nt, info = run_case(case)
                 col.case(case, nt, labels=['exhaustive'])
                 for sig, detail in res:
